@@ -88,3 +88,12 @@ Definition accept_C12_script (c : sc_obj) (o : jv * list (jv * jv)) : verdict :=
   (jv_eqb (model_write_sc c) written
    && forallb (fun io : jv * jv => match model_read_sc (fst io) with Ok s' => jv_eqb (model_write_sc s') (snd io) | Err => jv_eqb JNull (snd io) end) variants,
    S (length variants)).
+
+Definition tj_obj := trajectory_obj str.
+Definition model_write_tj (t : tj_obj) : jv := write_trajectory str (fun x => x) txt0 wr12 t.
+Definition model_read_tj (v : jv) : res tj_obj := read_trajectory str (fun x => Some x) txt0 [49%N; 46%N; 48%N] [48%N; 46%N; 48%N; 48%N; 49%N] v.
+Definition accept_C12_trajectory (c : tj_obj) (o : jv * list (jv * jv)) : verdict :=
+  let '(written, variants) := o in
+  (jv_eqb (model_write_tj c) written
+   && forallb (fun io : jv * jv => match model_read_tj (fst io) with Ok t' => jv_eqb (model_write_tj t') (snd io) | Err => jv_eqb JNull (snd io) end) variants,
+   S (length variants)).
